@@ -106,6 +106,8 @@ def render(n, depth=0):
         return "…"
     k = n.get("k")
     r = lambda x: render(x, depth + 1)
+    if k == "tupidx":
+        return "%s.%d" % (r(n["e"]), n["i"])
     if k == "lit":
         v = n["v"]
         for key in ("int", "str", "bool", "float", "char", "bytes"):
@@ -308,7 +310,8 @@ def local_values(body, name):
             for i, s in enumerate(p.get("subs") or []):
                 if s.get("k") == "bind" and s.get("name") == name:
                     for t in tails(l["init"]):
-                        out.append(t["es"][i] if t.get("k") == "tup" and i < len(t.get("es") or []) else None)
+                        # a component of a non-literal tuple (e.g. of a call's result) is kept as a projection node
+                        out.append(t["es"][i] if t.get("k") == "tup" and i < len(t.get("es") or []) else {"k": "tupidx", "i": i, "e": t, "ln": t.get("ln")})
     for a in find(body, "assign"):
         l_ = strip(a["l"])
         if l_.get("k") == "path" and l_["res"].get("local") == name:
